@@ -5,6 +5,7 @@ CONSTANTS
   DEnd = 3
   Secs = {0, 43200}
   Bounds = {0}
+  ContinueAfterInfinite = FALSE
   Unsound = FALSE
 PROPERTIES DecreasesCoarse
 CHECK_DEADLOCK FALSE
